@@ -110,6 +110,10 @@ func (env *Env) eval(x Expr) TV {
 			}
 			evalFail("seen: function has %d map range loops", len(found))
 		}
+		if n.Name == "now" {
+			// the allocation clock: every existing object was born before it
+			return TV{T: env.state.now, Typ: types.Typ[types.Int]}
+		}
 		if n.Name == "MaxInt" {
 			return TV{T: BigLit(maxInt64Str)}
 		}
